@@ -58,6 +58,8 @@ package auditd
 //@   requires o != nil && ctx != nil && o.Health != nil && HealthOK(o.Health) && o.EventW != nil && o.Audits != nil
 //@   requires (o.Logins == nil || alloc(o.Logins)) && alloc(o.Audits)
 //@   ensures[nonnil] result != nil
+//@   assert_at NewReassembler[errcap] chancap(cast(stream, "*processors/auditd.reassemblerCB").errors) >= 1 && pending(cast(stream, "*processors/auditd.reassemblerCB").errors) == 0
+//@   |   && cast(stream, "*processors/auditd.reassemblerCB").au != nil
 //@   assert_at (*sessionTracker).DeleteUsersWithoutLoginsBefore[cutoff] t == aMinuteAgo && t == clock - 60000000000
 //@   assert_at (*sessionTracker).DeleteRemoteUserLoginsBefore[cutoff] t == aMinuteAgo && t <= clock - 60000000000
 //@   loop Read#1 invariant[causal] Causal(tracker)
